@@ -4,8 +4,24 @@
   fields) to ONE form — division and remainder by literals — on which `omega` decides equalities.  The tie theorems
   end with `simp only [… these …]; omega` instead of `rfl` against one syntactic shape.  Core Lean only.
 -/
+import Lean.Elab.Tactic
 import Acra.Py.IntOps
 import Acra.Lemmas.SrcTie
+
+/-- `unfold_src_helpers`: unfold every regenerated definition `Acra.Gen.Src.<Module>._name` (a PRIVATE helper of the
+    Python module, translated on demand because the function under proof calls it) that occurs in the goal.  A helper
+    extracted from — or inlined into — a tied function therefore does not change the proof. -/
+elab "unfold_src_helpers" : tactic => do
+  let g ← Lean.Elab.Tactic.getMainGoal
+  let t ← Lean.instantiateMVars (← g.getType)
+  for n in t.getUsedConstants do
+    if (`Acra.Gen.Src).isPrefixOf n && n.components.length == 5 then
+      match n with
+      | .str _ last =>
+        if last.startsWith "_" then
+          Lean.Elab.Tactic.evalTactic (← `(tactic| try unfold $(Lean.mkIdent n)))
+      | _ => pure ()
+
 namespace Acra.Lemmas.SrcTieNorm
 open Acra Acra.Py Acra.Lemmas.SrcTie
 
